@@ -8,6 +8,7 @@ import (
 	"os"
 	"os/exec"
 	"path/filepath"
+	"strings"
 	"sync"
 
 	"github.com/alicebob/sqlittle"
@@ -126,6 +127,15 @@ func c15ReadHandle(h *handle, tables []string, index [2]string) c15Result {
 	for _, tn := range tables {
 		cols, err := h.hi.Columns(tn)
 		note(err)
+		res.rows += len(cols) // column names are data delivered from the file, too
+		if err == nil {
+			// asked again with the same spelling: same answer, or an error
+			cols2, err2 := h.hi.Columns(tn)
+			note(err2)
+			if err2 == nil && strings.Join(cols, ",") != strings.Join(cols2, ",") {
+				sig += "COLUMNS-UNSTABLE"
+			}
+		}
 		err = h.hi.Select(tn, func(r sqlittle.Row) {
 			res.rows++
 			sig += hx.RowKey(hx.Row(r))
@@ -369,6 +379,63 @@ func C15(run *hx.Run) {
 							run.Count("same_transaction_cases_ok", 1)
 						}
 					}
+				}
+			}
+		}
+	}
+	// re-read path, valid to valid: between two transactions of one handle the file is replaced by another
+	// valid database with a different page size (what VACUUM after PRAGMA page_size does), directly or after a
+	// transaction in which the header was refused. The new legal page size has to be used: rows equal the new file's.
+	for ai := range bases {
+		for bi := range bases {
+			if ai == bi {
+				continue
+			}
+			a, b := &bases[ai], &bases[bi]
+			for _, via := range []string{"direct", "after-refused-header"} {
+				pg := hx.NewMemPager(append([]byte{}, a.img...))
+				h, err := openMem(pg)
+				if err != nil {
+					continue
+				}
+				if first := c15ReadHandle(h, a.tables, a.index); first.err != nil || first.sig != a.ref.sig {
+					continue
+				}
+				key := fmt.Sprintf("C15/reread/other-page-size/%s", via)
+				detail := hx.M{"from_page_size": a.ps, "to_page_size": b.ps, "via": via}
+				if via == "after-refused-header" {
+					pg.Data[19] = 2 // WAL read version
+					binary.BigEndian.PutUint32(pg.Data[24:], binary.BigEndian.Uint32(pg.Data[24:])+1)
+					var mid c15Result
+					if p, pm := safely(func() { mid = c15ReadHandle(h, a.tables, a.index) }); p {
+						run.Violation(key+"/panic", pm, detail)
+						continue
+					}
+					if mid.rows > 0 {
+						run.Violation(key+"/not-refused", fmt.Sprintf("WAL read version under an open handle: %d rows delivered", mid.rows), detail)
+					}
+				}
+				nb := append([]byte{}, b.img...)
+				// counters only ever grow in a real history: the new file's change counter and schema cookie
+				// lie beyond every value this handle has seen (they are "accept" fields, any value is legal)
+				binary.BigEndian.PutUint32(nb[24:], binary.BigEndian.Uint32(a.img[24:])+1000)
+				binary.BigEndian.PutUint32(nb[40:], binary.BigEndian.Uint32(a.img[40:])+1000)
+				binary.BigEndian.PutUint32(nb[92:], binary.BigEndian.Uint32(nb[24:])) // version-valid-for follows the change counter
+				pg.Data = nb
+				var second c15Result
+				p, pm := safely(func() { second = c15ReadHandle(h, b.tables, b.index) })
+				run.Eval(1)
+				run.DistinctN(1)
+				run.See("reread_page_size_change", fmt.Sprintf("%d->%d", a.ps, b.ps))
+				switch {
+				case p:
+					run.Violation(key+"/panic", pm, detail)
+				case second.err != nil:
+					run.Violation(key+"/error", fmt.Sprintf("the file under an open handle was replaced by a valid database with page size %d (was %d, %s): the next transaction fails: %v", b.ps, a.ps, via, second.err), detail)
+				case second.sig != b.ref.sig || second.rows != b.ref.rows:
+					run.Violation(key+"/different-rows", fmt.Sprintf("the file under an open handle was replaced by a valid database with page size %d (was %d, %s): the next transaction returns %d rows that are not the new file's (%d)", b.ps, a.ps, via, second.rows, b.ref.rows), detail)
+				default:
+					run.Count("reread_other_page_size_ok", 1)
 				}
 			}
 		}
